@@ -311,3 +311,20 @@ def neighbours(case):
             for dlt in (-1, 1):
                 l = list(a[0]); l[i] += dlt; out.append((op, [l]))
     return out
+
+
+# ---- registry used by the cross-cutting checks C09 (no over-read) and C10 (total decoding).
+# Each entry: decode op taking args [data] + extra; `valid(rng)` yields packed valid units;
+# `declared_len(data)` is the length the unit declares (None when not self-delimiting).
+def _valid_headers(rng):
+    out = []
+    for _ in range(40):
+        out.append(layout(rng.randrange(8), rng.randrange(2), rng.randrange(2), rng.randrange(2048),
+                          rng.randrange(4), rng.randrange(16384), rng.randrange(65536)))
+    return out
+
+
+DECODERS = [
+    {"op": 102, "name": "SpacePacketHeader.unpack", "extra": [], "valid": _valid_headers, "declared_len": lambda b: 6},
+    {"op": 110, "name": "get_apid_from_raw_space_packet", "extra": [], "valid": _valid_headers, "declared_len": None},
+]
